@@ -82,8 +82,6 @@ def install():
     _expect(agg, "os", "module")
     _expect(agg, "atexit", "module")
     _expect(agg, "Path", "callable")
-    _expect(fn, "Pool", "callable")
-    _expect(ie, "Pool", "callable")
     _expect(ev, "perf_counter", "callable")
     _expect(tm, "time", "module")
     for mod in (agg, st):
@@ -100,8 +98,24 @@ def install():
     agg.Path = seams.SimPath
     if hasattr(st, "Path"):
         st.Path = seams.SimPath
-    fn.Pool = seams.SimPool
-    ie.Pool = seams.SimPool
+    # every module-level reference to multiprocessing's Pool inside the package, wherever a
+    # refactoring may have moved it
+    import multiprocessing
+    import multiprocessing.pool
+
+    real_pool = (multiprocessing.Pool, multiprocessing.pool.Pool)
+    rebound = []
+    for name, mod in sorted(sys.modules.items()):
+        if mod is None or not (name == "panoptica" or name.startswith("panoptica.")):
+            continue
+        for attr, val in list(vars(mod).items()):
+            if any(val is r or val == r for r in real_pool):
+                setattr(mod, attr, seams.SimPool)
+                rebound.append(f"{name}.{attr}")
+    multiprocessing.Pool = seams.SimPool
+    if not rebound:
+        raise HarnessError("attachment failed: no module of the package refers to multiprocessing.Pool")
+    MODS["pool_refs"] = rebound
     ev.perf_counter = seams.sim_perf_counter
     tm.time = seams.TimeProxy()
 
